@@ -160,7 +160,10 @@ Definition report : list (string * list (nat * list string)) :=
      kind cfg fault_kind fault_index  err raw_closed_local raw_closed_remote
           scope_delta_conns scope_delta_fd scope_delta_mem scope_delta_streams goroutines_left
    kind: 1 = outbound TCP dial through upgrader, 2 = inbound accept through
-         upgrader listener, 3 = stream open (host.NewStream), 4 = swarm/host close
+         upgrader listener, 3 = stream open (host.NewStream), 4 = swarm/host close,
+         6 = raw TCP client against the shared tcpreuse listener, 7 = QUIC dial /
+         accept with a rejecting gater or a refusing resource manager
+         (5 = close race, own format: Close.v)
    err: 1 = the operation reported an error / no connection was delivered, 0 = success
    raw_closed_*: 1 = the harness's raw net.Conn on that end observed Close/EOF
    scope_delta_*: usage(system+transient) after - before the attempt
@@ -186,10 +189,23 @@ Definition monitor_case (l : list Z) : list Z :=
 (* conformance: the observation must be an end state the path model allows for
    that kind of attempt: some feasible flattened path of the corresponding entry
    ends with the same (error?, everything released?) pair *)
-Definition entry_of_kind (kind : Z) : option (string * bool * st * list (list aev)) :=
+Fixpoint find_entry (n : string) (l : list (string * bool * st * list (list aev)))
+  : option (string * bool * st * list (list aev)) :=
+  match l with
+  | [] => None
+  | e :: r => if String.eqb n (fst (fst (fst e))) then Some e else find_entry n r
+  end.
+
+(* kind 6: the tcpreuse listener's per-connection goroutine; kind 7: the QUIC
+   transport, cfg 0 = dialing side, 1 = listening side *)
+Definition entry_of_kind (kind cfg : Z) : option (string * bool * st * list (list aev)) :=
   if kind =? 1 then nth_error entries 4
   else if kind =? 2 then nth_error entries 2
   else if kind =? 3 then nth_error entries 8
+  else if kind =? 6 then find_entry "tcpreuse multiplexedListener.run connection goroutine"%string entries
+  else if kind =? 7 then
+    (if cfg =? 0 then find_entry "quic transport.Dial"%string entries
+     else find_entry "quic listener.Accept iteration"%string entries)
   else None.
 
 Definition end_released (vr : bool) (s : st) : bool :=
@@ -201,7 +217,7 @@ Definition conform_case (l : list Z) : list Z :=
   | 5 :: r => close_conform r
   | [kind; cfg; fk; fi; err; rcl; rcr; dconn; dfd; dmem; dstr; gl] =>
       if kind =? 4 then [] else
-      match entry_of_kind kind with
+      match entry_of_kind kind cfg with
       | None => [ERR_MALFORMED; 1]
       | Some (_, vr, init, ps) =>
           let released := (rcl =? 1) && (dconn =? 0) && (dfd =? 0) && (dmem =? 0) && (dstr =? 0) && (gl =? 0) in
